@@ -57,5 +57,9 @@ func TestVerifC12Fp25519(t *testing.T) {
 	if P() != ty.From(ty.F.P) {
 		vlib.ReportDirect(t, "C12/fp25519/P/api/wrong-constant", "P() is not 2^255-19", nil)
 	}
+	for _, be := range bes[1:] {
+		be.Select()
+		kit.SweepPredicates(t, &kit.Preds[Elt]{F: ty.F, Type: "fp25519", Backend: be.Backend, From: ty.From, IsZero: IsZero})
+	}
 	vlib.Check(t, vlib.N(20000, 100000), func(t *rapid.T) { kit.CheckElt(t, ty, bes) })
 }
